@@ -81,6 +81,10 @@ Proof.
   intros c Hc. exists c. split; [exact Hc|now left].
 Qed.
 
+Lemma v_fks_shape C v dbv :
+  v <> PNone -> v_fks_from C (fk_unwrap TForeignKeyStr v) = Ok dbv -> exists s, dbv = PStr s.
+Proof. intros Hv H. destruct v; cbn in H; try congruence; inv H; eauto. Qed.
+
 (* ---------------------------------------------------------------- text columns *)
 Lemma v_string_shape v dbv :
   v <> PNone -> v_string false v = Ok dbv -> (exists s, dbv = PStr s) \/ (exists b, dbv = PBytes b).
